@@ -106,6 +106,10 @@ def gen_config(rng):
     cfgd = {'url': utypes, 'resources': list(res), 'route_resources': list(rres), 'mws': mws, 'ep': ep, 'rn': rn}
     # a sibling route BEFORE the main one whose pattern matches the same paths but admits only POST; its URL
     # bindings are named like the main route's route-level resources (legal: those are per route)
+    if rng.random() < 0.35:
+        # the whole application is embedded in a parent that adds resources of its own: names that nobody
+        # offered inside ("fresh" optional parameters) are now on offer, from the parent
+        cfgd['parent'] = {'resources': rng.sample(fresh, rng.randint(1, 2)), 'prefix': rng.choice(['/up', '/up/per'])}
     if utypes and rng.random() < 0.6:
         dn = list(rres) + ['dq%d' % i for i in range(len(utypes))]
         cfgd['decoy'] = [[dn[i], t] for i, (u, t) in enumerate(utypes)]
@@ -201,6 +205,11 @@ def build(cfg, tag):
                       resources=resources, middlewares=objs['app'], error_handler=eh)
     allres = dict(resources)
     allres.update(route_resources)
+    if cfg.get('parent'):
+        pres = dict((r, Res(r, tag + '-parent')) for r in cfg['parent']['resources'])
+        app = Application([(cfg['parent']['prefix'], app)], resources=pres)
+        allres.update(pres)
+        pattern = cfg['parent']['prefix'] + pattern
     return app, allres, pattern
 
 
@@ -230,6 +239,9 @@ def on_offer(cfg, fname, route_kind):
     offer = dict((b, 'builtin:' + b) for b in BUILTINS_REQ)
     for r in cfg['resources']:
         offer[r] = 'res:' + r
+    if route_kind == 'route' and cfg.get('parent'):
+        for r in cfg['parent']['resources']:
+            offer[r] = 'res:' + r
     if route_kind == 'route':
         for u, _ in cfg['url']:
             offer[u] = 'url:' + u
@@ -298,7 +310,7 @@ class C02(Check):
                   'independent resolver as oracle. The configuration space is a sampled input space; what simulation adds '
                   'is the history, interleaving and hash-seed dimensions the property names.')
     level_note = 'Trusted: the resolver (~40 lines from the property text), generator validity rules V1-V3.'
-    required_probes = ('decoy-route-binding-named-like-resource', 'positional-next-multi', 'render-error-injected', 'optional-got-offered-value', 'kwonly-got-offered-value', 'null-route-defaults', 'concurrent-batch',
+    required_probes = ('embedded-in-parent-offering-more-names', 'decoy-route-binding-named-like-resource', 'positional-next-multi', 'render-error-injected', 'optional-got-offered-value', 'kwonly-got-offered-value', 'null-route-defaults', 'concurrent-batch',
                        'kind-lambda', 'kind-callable', 'kind-classmethod', 'kind-decorated', 'multi-url-value')
 
     def generate(self, seed, tier):
@@ -340,6 +352,8 @@ class C02(Check):
             res.probe('kind-' + cfg[kind]['kind'])
         if cfg.get('decoy') and cfg.get('route_resources'):
             res.probe('decoy-route-binding-named-like-resource')
+        if cfg.get('parent'):
+            res.probe('embedded-in-parent-offering-more-names')
         RT.reset({})
         for m in cfg['mws']:
             for ph, f in m['funcs'].items():
@@ -354,6 +368,7 @@ class C02(Check):
             RT.set_seq(r['seq'])
             if r['kind'] == 'route':
                 _, path = url_values(cfg, r['seq'])
+                path = (cfg['parent']['prefix'] if cfg.get('parent') else '') + path
             else:
                 path = '/nowhere/%d' % r['seq']
             env = make_environ('GET', path)
@@ -390,7 +405,9 @@ class C02(Check):
         K = 'C02/'
         seq, kind = r['seq'], r['kind']
         calls = RT.calls.get(seq, [])
-        want_code = 200 if (kind == 'route' or cfg.get('re')) else 404   # the harness error renderer answers 200
+        embedded = bool(cfg.get('parent'))
+        # the harness error renderer answers 200; when embedded, unknown URLs are the PARENT's business (plain 404)
+        want_code = 200 if (kind == 'route' or (cfg.get('re') and not embedded)) else 404
         ctx = 'step %d request #%d (%s, %s)' % (step, seq, kind, mode)
         if ex.escaped is not None or ex.code != want_code:
             detail = ex.body[:600].decode('utf8', 'replace')
@@ -473,6 +490,8 @@ class C02(Check):
 
     @staticmethod
     def must_run(cfg, kind):
+        if kind != 'route' and cfg.get('parent'):
+            return []       # the parent's catch-all route: none of the embedded application's functions run
         chain = [m for m in cfg['mws'] if m['level'] == 'app']
         if kind == 'route':
             chain += [m for m in cfg['mws'] if m['level'] == 'route']
